@@ -32,7 +32,7 @@ RULE = ("per run one BEC2 file: non-empty ordered subset of {customer-key, ECC(s
 REAL = ["bec2format.bec2file (Bec2File, auth blocks, encryptors)", "bec2format.bf3file", "bec2format.crypto registry",
         "register_crypto_plugin (AES adapter, ECC proxies)", "pyaes", "ecdsa"]
 STUBS = ["medium: SimFS", "RNG: SimRng behind register_random_bytes and os.urandom shims"]
-PROBES = ["keystore-arm", "writer-keystore", "session-key-trailing-zero", "crc-low-byte-zero", "crc-high-byte-zero", "key-drawn-from-rng",
+PROBES = ["write-after-crashed-attempt", "write-after-failed-attempt", "keystore-arm", "writer-keystore", "session-key-trailing-zero", "crc-low-byte-zero", "crc-high-byte-zero", "key-drawn-from-rng",
           "three-blocks", "subset-leaves-block-opaque", "wrong-key-arm-raised", "wrong-key-arm-returned",
           "encrypted-config", "default-recipient-ecc", "customer-key-present"]
 ASSUMPTIONS = ["customer key position 0 (the only position that leaves the wrapped session key intact)"]
@@ -43,6 +43,10 @@ def gen(st, tier):
     spec = files.file_spec(w, kind="bec2", p_enc=0.2, max_len=200, p_config=0.5)
     spec["wrong"] = w.randrange(8)
     spec["decoys"] = w.random() < 0.35
+    # an earlier attempt to write the same file that failed (full disk) or died (crash) part-way:
+    # the real write must replace whatever it left behind
+    f = st["faults"]
+    spec["prefail"] = [f.choice(["enospc", "crash"]), f.randint(0, 8), f.randint(0, 120)] if f.random() < 0.25 else None
     return spec
 
 
@@ -95,6 +99,20 @@ def run(case):
     bf = env.bec2file
     name = "dev.bec2"
     try:
+        pf = case.get("prefail")
+        if pf:
+            try:
+                files.write_file(case, fs, env, name, plan={pf[1]: (pf[0], pf[2])})
+                out.ev("prefail-not-reached")
+            except SimCrash:
+                out.fired["crash"] += 1
+                out.probes["write-after-crashed-attempt"] += 1
+                fs.restart()
+            except OSError:
+                out.fired["enospc"] += 1
+                out.probes["write-after-failed-attempt"] += 1
+            except Exception as e:
+                out.ev("prefail-other", type(e).__name__)
         try:
             w = files.write_file(case, fs, env, name)
         except SimCrash:
